@@ -25,6 +25,9 @@ SPEC = common.SPEC
 OPTIONAL = ("name", "arg_index", "signature")
 
 
+SIGKINDS = ["positional", "name", "kwonly", "varkw", "object", "partial"]
+
+
 class Recorder:
     def __init__(self):
         self.events = []
@@ -142,6 +145,15 @@ def run_item(it):
                     findings.append({"kind": "factory-call-fails", "detail": "%s call with factories at %s raised %s but works with tensors" % (label, positions, exc)})
                 elif not (np.asarray(r).shape == direct.shape and np.allclose(np.asarray(r, dtype=float), direct.astype(float), equal_nan=True)):
                     findings.append({"kind": "factory-result-differs", "detail": "%s call: result differs from passing the produced tensors directly" % label})
+            # same call again with factories of OTHER signatures at the same positions: the cached code of the first
+            # signature must not be reused for them
+            other = {i: SIGKINDS[(SIGKINDS.index(good[i]) + 1 + 2 * n) % len(SIGKINDS)] for n, i in enumerate(positions)}
+            r, ok, exc = one("run", other, label="other-signature")
+            ncalls += 1
+            if not ok:
+                findings.append({"kind": "factory-call-fails", "detail": "call with factories of signatures %s after the same call with %s raised %s" % (other, good, exc)})
+            elif not (np.asarray(r).shape == direct.shape and np.allclose(np.asarray(r, dtype=float), direct.astype(float), equal_nan=True)):
+                findings.append({"kind": "factory-result-differs", "detail": "other-signature call: result differs from passing the produced tensors directly"})
             # rejected: an under-determined call (no keyword sizes although every tensor is a factory)
             if len(positions) == len(ins) and sizes:
                 r, ok, exc = one("rejected", good, kw={}, label="underdetermined")
@@ -175,7 +187,6 @@ def run_chunk(items):
     return out
 
 
-SIGKINDS = ["positional", "name", "kwonly", "varkw", "object", "partial"]
 OPS = {"elementwise": ["add", "multiply"], "dot": ["dot"], "id": ["id"], "reduce": ["sum"], "get_at": ["get_at"]}
 
 
